@@ -37,7 +37,7 @@ impl VariableSet {
 }
 #[derive(Clone, Copy, PartialEq, Eq)]
 pub enum Scope { Global, Local, Volatile }
-pub use Scope::Global;
+pub use Scope::{Global, Local, Volatile};
 pub enum VEv { Requested { name: Seq<char>, scope: Scope }, Assigned { value: Seq<char>, ok: bool } }
 pub mod yash_env { pub struct Env<S> { pub variables: super::VariableSet, pub options: super::OptionSet, pub log: vstd::prelude::Ghost<vstd::prelude::Seq<super::VEv>>, pub system: S } }
 pub struct AssignError { pub new_value: Value, pub read_only_location: Location }
